@@ -342,7 +342,7 @@ def request(case, impl_result):
         return None
     return {'op': 'structured', 'name': a.name, 'ext': [n.name for n in a.nodes],
             'inner': [_asset_json(x, op) for x, op in impl_result['inner']],
-            'gridI': [int(i) for i in impl_result['tg'].I], 'nonstr': _nonstr([op for _, op in impl_result['inner']])}
+            'gridI': [int(i) for i in impl_result['tg'].I]}
 
 
 def is_exact(case):
@@ -384,9 +384,8 @@ def compare(case, impl_result, model_result):
             dis.append('%s: error class %r (impl) vs %r (model)' % (case['kind'], ierr, merr))
         return dis
     if len(wrapped.mapping) and wrapped.mapping.index.isna().any():
-        # the wrapper returned a mapping with the label NaN (base with variables but no mapping row)
-        if merr != 'nan-index':
-            dis.append('%s: impl returned a mapping with label NaN, model says %r' % (case['kind'], merr))
+        # (before 8409988: base with variables but no mapping row); not representable, always a disagreement
+        dis.append('%s: impl returned a mapping with label NaN, model says %r' % (case['kind'], merr))
         return dis
     if merr is not None:
         dis.append('%s: model error %r but impl built a problem' % (case['kind'], merr))
@@ -404,12 +403,13 @@ def compare(case, impl_result, model_result):
             d = pf.cmp_vec('scaled.c[:-1]', mj['c'][:-1], implj['c'][:-1], 0)
             if d:
                 dis.append(d)
-        # shape of A: the model's `regular` flag must say whether A has one column per variable
-        if wrapped.A is not None and len(wrapped.l) > 0 and 'regular' in model_result:
-            full = wrapped.A.shape[1] == len(wrapped.c)
-            bop = impl_result['inner'][0][1]
-            if len(bop.l) > 0 and model_result['regular'] and not full:
-                dis.append('scaled: model says regular but A has %d columns for %d variables' % (wrapped.A.shape[1], len(wrapped.c)))
+        # shape of A: one column per variable (the model's rows only say which columns are non-zero)
+        if len(wrapped.l) > 0 and len(impl_result['inner'][0][1].l) > 0:
+            if wrapped.A is None or wrapped.A.shape[1] != len(wrapped.c):
+                dis.append('scaled: A has %s columns for %d variables' % (None if wrapped.A is None else wrapped.A.shape[1], len(wrapped.c)))
+            mx = max((j for r in mj['rows'] for j, _ in r['coeffs']), default=-1)
+            if mx >= len(mj['c']):
+                dis.append('scaled: model row mentions column %d but there are %d variables' % (mx, len(mj['c'])))
     else:
         dis += pf.cmp_problem('structured', mj, implj, tol, aspects=('c', 'l', 'u', 'rows', 'mapping'))
         if mj.get('nodes') != [n.name for n in a.nodes]:
@@ -764,6 +764,52 @@ def oracle(case, impl_result=None, seed=0):
     return oracle_structured(case, seed)
 
 
+# ------------------------------------------------------------------ contract of a property module (for harness.core)
+ID = 'C16'
+THEOREMS = [
+    ('EAO.Properties.C16', 'EAO.C16.scaled_fixed', 'for any non-empty base problem whose bounds have the right length and whose mapping rows point at its variables, 0 < norm and a point (x, s) with 0 <= s, min_scale <= s <= max_scale: (x, s) satisfies bounds and rows of the scaled problem iff x satisfies the base problem with every right-hand side and the bounds of every dispatch variable multiplied by s/norm, the bounds of the other variables unchanged; the value is the base value minus s * fix_costs * sum dt'),
+    ('EAO.Properties.C16', 'EAO.C16.scaled_wf', 'shape of the scaled problem: n+1 variables, bounds of that length, |rows| + 2 nD rows with columns < n+1, mapping re-assigned to the scaled asset, last mapping row = scale row pointing at variable n'),
+    ('EAO.Properties.C16', 'EAO.C16.scaled_empty', 'an empty base problem is handed on unchanged'),
+    ('EAO.Properties.C16', 'EAO.C16.structured_flat_vectors', 'portfolio with the structured asset and flat portfolio have the same cost vector and bounds (same variables, same order)'),
+    ('EAO.Properties.C16', 'EAO.C16.structured_flat', 'if dispatch rows sit at the assets own nodes and inner non-external node names do not occur among outer assets nodes nor in the skip list, a point satisfies all rows of the portfolio with the structured asset iff it satisfies all rows of the flat portfolio'),
+]
+COMPONENTS = ['buildScaled on the captured real base problem vs ScaledAsset.setup_optim_problem',
+              'structured on the captured real inner problems vs StructuredAsset.setup_optim_problem']
+
+
+def scenarios(seed, tier):
+    n = 150 if tier == 'quick' else 2000
+    rnd = random.Random(seed * 104729 + 16)
+    for i in range(n):
+        yield 'gen%d' % i, gen_case(random.Random(rnd.getrandbits(48)), tmax=8 if tier == 'quick' else 12)
+
+
+def run_case(case, drv, with_oracle=True):
+    r = {'evaluated': 1, 'nontrivial': False, 'features': [case['kind'], 'base:' + str(case.get('base_kind'))],
+         'disagreements': [], 'violations': []}
+    ir, mr, dis = run_corr(case, drv)
+    r['disagreements'] = [{'component': case['kind'], 'detail': d} for d in dis]
+    if ir.get('error'):
+        r['features'].append('impl-error:%s:%s' % (ir.get('stage'), ir['error']))
+    if ir.get('inner') and case['kind'] == 'scaled':
+        bop = ir['inner'][0][1]
+        if len(bop.c) and len(set(int(i) for i in bop.mapping.index)) < len(bop.c):
+            r['features'].append('base-var-without-mapping-row')
+    if case['kind'] == 'structured' and _nonstr([op for _, op in ir.get('inner', [])]):
+        r['features'].append('inner-nonstring-var-names')
+    if with_oracle and not ir.get('error'):
+        v, st = oracle(case, ir, seed=int(scen_hash(case), 16) % 1000)
+        r['violations'] = v
+        r['nontrivial'] = bool(st.get('fixed') or st.get('compared'))
+        r['observed'] = st
+    return r
+
+
+def scen_hash(obj):
+    import hashlib
+    return hashlib.sha1(json.dumps(obj, sort_keys=True, default=str).encode()).hexdigest()[:8]
+
+
 # ------------------------------------------------------------------ self test
 def run_corr(case, drv):
     ir = run_impl(case)
@@ -774,7 +820,7 @@ def run_corr(case, drv):
 
 def selftest(n, seed, drv, oracles=0, verbose=False):
     rnd = random.Random(seed)
-    counts = {'cases': 0, 'scaled': 0, 'structured': 0, 'compared': 0, 'impl_errors': {}, 'irregular': 0, 'model_errors': {},
+    counts = {'cases': 0, 'scaled': 0, 'structured': 0, 'compared': 0, 'impl_errors': {}, 'rowless_base_var': 0, 'base_empty_mapping': 0, 'base_bool': 0, 'inner_nonstr': 0, 'model_errors': {},
               'oracle_cases': 0, 'oracle_violations': 0, 'features': {}}
     disagreements, violations = [], []
     for i in range(n):
@@ -786,8 +832,16 @@ def selftest(n, seed, drv, oracles=0, verbose=False):
             counts['compared'] += 1
             if mr.get('error'):
                 counts['model_errors'][mr['error']] = counts['model_errors'].get(mr['error'], 0) + 1
-            if mr.get('regular') is False:
-                counts['irregular'] += 1
+        if case['kind'] == 'scaled' and ir.get('inner') and ir.get('wrapped') is not None:
+            bop = ir['inner'][0][1]
+            if len(bop.c) and len(set(int(i) for i in bop.mapping.index)) < len(bop.c):
+                counts['rowless_base_var'] += 1
+            if len(bop.c) and len(bop.mapping) == 0:
+                counts['base_empty_mapping'] += 1
+            if 'bool' in bop.mapping.columns and len(bop.c):
+                counts['base_bool'] += 1
+        if case['kind'] == 'structured' and ir.get('wrapped') is not None and _nonstr([op for _, op in ir.get('inner', [])]):
+            counts['inner_nonstr'] += 1
         if ir.get('error'):
             k = '%s:%s:%s' % (case['kind'], ir.get('stage'), ir['error'])
             counts['impl_errors'][k] = counts['impl_errors'].get(k, 0) + 1
